@@ -38,16 +38,29 @@ int                memio_overflow = 0;
 int                memio_sparse = 0; /* allow writes beyond MEMIO_DISK_SZ (not stored; read as zeros) */
 long               memio_short_amount = 0; /* bytes actually transferred by a failing fread/fwrite */
 
+const char *memio_failed_kind = 0; /* kind of the first failing call (diagnostics) */
+long        memio_failed_pos  = -1;
+int         memio_phase       = 0;  /* set by the harness before each API call */
+int         memio_failed_phase = -1; /* phase in which the first stdio call failed */
+int         memio_failed_code  = 0;  /* 1 fopen 2 fclose 3 fflush 4 fseek 5 fread 6 fwrite */
+
 static int
-memio_fault(void)
+memio_fault_k(const char *kind, long pos, int code)
 {
     long k = memio_ncalls++;
     if (memio_fail_at >= 0 && (k == memio_fail_at || (memio_sticky && k > memio_fail_at))) {
+        if (!memio_any_failed) {
+            memio_failed_kind  = kind;
+            memio_failed_pos   = pos;
+            memio_failed_phase = memio_phase;
+            memio_failed_code  = code;
+        }
         memio_any_failed = 1;
         return 1;
     }
     return 0;
 }
+#define memio_fault(code) memio_fault_k(__func__, -1, code)
 
 static int
 memio_name_eq(const char *a, const char *b)
@@ -97,7 +110,7 @@ FN(fopen)(const char *path, const char *mode)
 {
     int f, s;
     int wr = 0, creat = 0;
-    if (memio_fault())
+    if (memio_fault(1))
         return NULL;
     if (mode[0] == 'w') {
         wr = 1;
@@ -133,7 +146,7 @@ int
 FN(fclose)(FILE *fp)
 {
     struct memio_strm *s = (struct memio_strm *)fp;
-    int                bad = memio_fault();
+    int                bad = memio_fault(2);
     if (s->used) {
         memio_files[s->file].nopen--;
         s->used = 0;
@@ -145,7 +158,7 @@ int
 FN(fflush)(FILE *fp)
 {
     (void)fp;
-    if (memio_fault())
+    if (memio_fault(3))
         return EOF;
     return 0;
 }
@@ -155,7 +168,7 @@ FN(fseek)(FILE *fp, long off, int whence)
 {
     struct memio_strm *s = (struct memio_strm *)fp;
     long               np;
-    if (memio_fault())
+    if (memio_fault(4))
         return -1;
     if (whence == SEEK_SET)
         np = off;
@@ -184,7 +197,7 @@ FN(fread)(void *ptr, size_t size, size_t n, FILE *fp)
     struct memio_file *f   = &memio_files[s->file];
     unsigned char     *dst = (unsigned char *)ptr;
     size_t             want = size * n, i, got;
-    int                bad = memio_fault();
+    int                bad = memio_fault_k("fread", s->pos, 5);
     long               avail = f->size - s->pos;
     if (avail < 0)
         avail = 0;
@@ -221,7 +234,7 @@ FN(fwrite)(const void *ptr, size_t size, size_t n, FILE *fp)
         memio_ro_write_attempt = 1;
         return 0;
     }
-    bad = memio_fault();
+    bad = memio_fault_k("fwrite", s->pos, 6);
     put = want;
     if (bad) {
         long sh = memio_short_amount;
